@@ -261,18 +261,36 @@ Definition get_cstr (pdu : list Z) (index : nat) : res (list Z * nat) :=
 
 Definition slice_b (pdu : list Z) (a n : nat) : list Z := firstn n (skipn a pdu).
 
-(* decode_message(raw): text and the synthetic SAR parameters for a UDH *)
+(* the User Data Header is a sequence of information elements (id, length, data) in any order (3GPP TS 23.040 9.2.3.24): the loop of
+   decode_message that looks for the concatenation element, 8-bit (id 0, 3 octets) or 16-bit reference (id 8, 4 octets); other
+   elements (application port addressing ...) are skipped. Fix: the pinned code took the first element for the concatenation one *)
+Fixpoint scan_ies (fuel : nat) (raw : list Z) (pos end_ : nat) (acc : option (Z * Z * Z)) : res (option (Z * Z * Z)) :=
+  match fuel with
+  | O => Ok acc
+  | S f =>
+    if Nat.ltb pos end_ then
+      do ie_id <- unpackB raw pos; do ie_len <- unpackB raw (S pos);
+      do acc' <- (if (ie_id =? IE_ID_16BIT) && (ie_len =? 4)
+                  then (do rf <- unpackH raw (pos + 2); do t <- unpackB raw (pos + 4); do sq <- unpackB raw (pos + 5); Ok (Some (rf, t, sq)))
+                  else if (ie_id =? IE_ID_8BIT) && (ie_len =? 3)
+                       then (do rf <- unpackB raw (pos + 2); do t <- unpackB raw (pos + 3); do sq <- unpackB raw (pos + 4); Ok (Some (rf, t, sq)))
+                       else Ok acc);
+      scan_ies f raw (pos + 2 + Z.to_nat ie_len) end_ acc'
+    else Ok acc
+  end.
+
+(* decode_message(raw): text and the synthetic SAR parameters for a UDH with a concatenation element *)
 Definition decode_message (esm : Z) (codec : enc) (raw : list Z) : res (list Z * list optparam) :=
   if (0 <? (esm / 64) mod 2) && (match raw with [] => false | _ => true end) then
-    do udh_len <- unpackB raw 0; do ie_id <- unpackB raw 1;
-    do refind <- (if ie_id =? IE_ID_16BIT then (do rf <- unpackH raw 3; Ok (rf, 5%nat))
-                  else (do rf <- unpackB raw 3; Ok (rf, 4%nat)));
-    let '(rf, ind) := refind in
-    do total <- unpackB raw ind; do sq <- unpackB raw (S ind);
+    do udh_len <- unpackB raw 0;
+    do found <- scan_ies (length raw) raw 1 (Z.to_nat (udh_len + 1)) None;
     do t <- codec_decode codec (skipn (Z.to_nat (udh_len + 1)) raw);
-    Ok (t, [{| op_tag := TAG_SAR_MSG_REF_NUM; op_val := TInt rf |};
-            {| op_tag := TAG_SAR_SEGMENT_SEQNUM; op_val := TInt sq |};
-            {| op_tag := TAG_SAR_TOTAL_SEGMENTS; op_val := TInt total |}])
+    Ok (t, match found with
+           | Some (rf, total, sq) => [{| op_tag := TAG_SAR_MSG_REF_NUM; op_val := TInt rf |};
+                                      {| op_tag := TAG_SAR_SEGMENT_SEQNUM; op_val := TInt sq |};
+                                      {| op_tag := TAG_SAR_TOTAL_SEGMENTS; op_val := TInt total |}]
+           | None => []
+           end)
   else do t <- codec_decode codec raw; Ok (t, []).
 
 Definition mem_enum (x : Z) (l : list Z) : res Z := if mem x l then Ok x else Err EXN_ValueError.
